@@ -4,6 +4,7 @@
   classes: R rejected, C converted, O out of range, T throws
 -/
 import Cellml.Num.Model
+import Cellml.Num.Positions
 import Cellml.Wire
 namespace Cellml.Engine.Num
 open Cellml.Num Cellml.Wire
@@ -36,5 +37,23 @@ def alphabet : List Char := "0123456789+-.eE a".toList
 def stringsOfLen : Nat → List (List Char)
   | 0 => [[]]
   | n+1 => alphabet.flatMap fun c => (stringsOfLen n).map (c :: ·)
+
+def siPrefixes : List (List Char) :=
+  ["yotta", "zetta", "exa", "peta", "tera", "giga", "mega", "kilo", "hecto", "deca", "deci", "centi", "milli",
+   "micro", "nano", "pico", "femto", "atto", "zepto", "yocto"].map String.toList
+
+def parsePos : String → Option Pos
+  | "exponent" => some .exponent | "multiplier" => some .multiplier | "prefix" => some .pfx
+  | "initial" => some .initialValue | "order" => some .order | "cnreal" => some .cnReal
+  | "cnmant" => some .cnMantissa | "cnexp" => some .cnExponent | _ => none
+
+/-- `numpos`: `<position> <hex>` → `<position> <hex> <1 if the position's issue is raised>` -/
+def posAnswer (line : String) : String :=
+  match Cellml.Wire.tokens line with
+  | [p, h] =>
+    match parsePos p, fromHex h with
+    | some pos, some s => s!"{p} {h} {if issueAt siPrefixes pos s then 1 else 0}"
+    | _, _ => "bad-line"
+  | _ => "bad-line"
 
 end Cellml.Engine.Num
